@@ -68,6 +68,18 @@ impl Builder {
     }
 
     fn set_resources(cert: &mut TbsCert, blocks: &[usize], extra_v4: Option<(u128, u8)>) {
+        Self::set_resources_slash0(cert, blocks, extra_v4, false)
+    }
+
+    fn set_resources_slash0(cert: &mut TbsCert, blocks: &[usize], extra_v4: Option<(u128, u8)>, slash0: bool) {
+        if slash0 {
+            cert.build_v4_resource_blocks(|b| { b.push(ResPrefix::new(Addr::from_bits(0), 0)); });
+            cert.build_v6_resource_blocks(|b| { b.push(ResPrefix::new(Addr::from_bits(0), 0)); });
+            cert.build_as_resource_blocks(|b| {
+                for i in blocks { let (lo, hi) = block_as(*i); b.push((Asn::from_u32(lo), Asn::from_u32(hi))); }
+            });
+            return
+        }
         cert.build_v4_resource_blocks(|b| {
             for i in blocks { let (bits, len) = block_v4(*i); b.push(ResPrefix::new(Addr::from_bits(bits), len)); }
             if let Some((bits, len)) = extra_v4 { b.push(ResPrefix::new(Addr::from_bits(bits), len)); }
@@ -84,7 +96,8 @@ impl Builder {
     pub fn ta_cert(&mut self, w: &World, tal: usize, key: usize, nb: Ts, na: Ts) -> Bytes {
         let root = w.tals[tal].root;
         let blocks = w.blocks(root);
-        let k = format!("ta|{tal}|{key}|{nb}|{na}|{:?}|{}|{}", blocks, w.ca_repository(root), w.cas[root].rrdp);
+        let slash0 = w.cas[root].slash0;
+        let k = format!("ta|{tal}|{key}|{nb}|{na}|{:?}|{}|{}|{slash0}", blocks, w.ca_repository(root), w.cas[root].rrdp);
         let (repo, mft, notify) = (w.ca_repository(root), w.manifest_uri(root), if w.cas[root].rrdp { Some(w.notify_uri(w.cas[root].repo)) } else { None });
         self.cached(k, |s| {
             let pk = s.public(key).clone();
@@ -93,7 +106,7 @@ impl Builder {
             cert.set_ca_repository(Some(rsync(&repo)));
             cert.set_rpki_manifest(Some(rsync(&mft)));
             if let Some(n) = notify { cert.set_rpki_notify(Some(uri::Https::from_str(&n).unwrap())); }
-            Self::set_resources(&mut cert, &blocks, None);
+            Self::set_resources_slash0(&mut cert, &blocks, None, slash0);
             cert.into_cert(s, &key).expect("sign ta").to_captured().into_bytes()
         })
     }
@@ -108,7 +121,8 @@ impl Builder {
         let (repo, mft) = (w.ca_repository(child), w.manifest_uri(child));
         let notify = if w.cas[child].rrdp { Some(w.notify_uri(w.cas[child].repo)) } else { None };
         let extra = if o.fault == Some(Fault::Overclaim) { Some(((((172u32 << 24) | (16 << 16) | ((child as u32 & 0xff) << 8)) as u128) << 96, 24)) } else { None };
-        let k = format!("cacert|{parent}|{child}|{pkey}|{ckey}|{sign_key}|{}|{}|{}|{:?}|{:?}|{crl}|{repo}|{:?}|{}", o.serial, o.nb, o.na, blocks, extra, notify, o.salt);
+        let slash0 = w.cas[child].slash0;
+        let k = format!("cacert|{parent}|{child}|{pkey}|{ckey}|{sign_key}|{}|{}|{}|{:?}|{:?}|{crl}|{repo}|{:?}|{}|{slash0}", o.serial, o.nb, o.na, blocks, extra, notify, o.salt);
         let (serial, nb, na) = (o.serial, o.nb, o.na);
         let b = self.cached(k, |s| {
             let ppk = s.public(pkey).clone();
@@ -121,7 +135,7 @@ impl Builder {
             cert.set_ca_repository(Some(rsync(&repo)));
             cert.set_rpki_manifest(Some(rsync(&mft)));
             if let Some(n) = notify { cert.set_rpki_notify(Some(uri::Https::from_str(&n).unwrap())); }
-            Self::set_resources(&mut cert, &blocks, extra);
+            Self::set_resources_slash0(&mut cert, &blocks, extra, slash0);
             cert.into_cert(s, &sign_key).expect("sign ca").to_captured().into_bytes()
         });
         if o.fault == Some(Fault::BadSignature) { flip_tail(&b) } else { b }
@@ -289,6 +303,7 @@ impl Builder {
             out.tals.push((tal.name.clone(), text));
         }
         for ca in 0..w.cas.len() {
+            if w.cas[ca].alias_of.is_some() { continue }
             self.publish_ca(w, ca, &mut out);
             if w.cas[ca].unreachable {
                 let m = format!("{}/repo", w.host(w.cas[ca].repo));
